@@ -6,6 +6,7 @@ import RModel.Gen.LineTables
 import RModel.Lemmas.CaseModelAcr
 import RModel.Lemmas.LineCompose
 import RModel.Lemmas.LineEnv
+import RModel.Lemmas.Resolver
 /-
   C06 — Every case style of the term is found and rewritten in the same style.   (property theorems only)
 
@@ -841,5 +842,194 @@ theorem coercion_context_at_the_match_now :
       some (p' ++ b!" " ++ b!"BAZ_QUX" ++ b!"\n")) :=
   ⟨by decide, by decide +kernel, by decide +kernel, by decide +kernel, by decide +kernel, by decide +kernel,
    ⟨b!"x_Baz_Qux", by decide +kernel⟩⟩
+
+-- ══════════════════════════════════════════════════════════════════════════════════════════════════════════════════════
+-- WP-RESOLVER — clause 3 with the resolver's REAL context heuristics (Model/Resolver.lean, Lemmas/Resolver.lean):
+-- the last parameter of the one-line pipeline, `Env.heur`, instantiated with the model of levels 1–3 of
+-- `AmbiguityResolver::resolve_with_styles` (all twelve language modules PARSED from the source, the file-context analyzer for EVERY iteration order
+-- of its `HashMap`, the cross-file level that `project_root: None` switches off).  No `HeurOk` hypothesis is left.
+-- ══════════════════════════════════════════════════════════════════════════════════════════════════════════════════════
+
+/-- the environment of a match at byte column `pos` of `line` in the file `path` with `content`: real coercion decision, real
+    compound pass, real context heuristics (`ord` = the iteration order of the analyzer's `HashMap`, arbitrary) -/
+def envCtx (c : Cfg) (ord : List Style) (path content line : Bytes) (pos : Nat) : Env :=
+  { envReal c with heur := Resolver.heurReal c.A ord path content line pos }
+
+/-- every `return Some(Style::X)` of every language module (`languages/*.rs`, parsed into `Gen.languageRules` by
+    translate/languagerules.py) sits below a condition with the conjunct `possible_styles.contains(&Style::X)` — checked by
+    evaluation on the generated decision trees; `Resolver.Block.eval_mem` turns it into "answers only possible styles" -/
+theorem language_rules_guarded : Resolver.RulesGuarded := by decide
+
+/-- all twelve modules are there, under the names the extension table uses -/
+theorem language_rules_complete :
+    Gen.languageRules.map (·.1) = [b!"ruby", b!"python", b!"javascript", b!"go", b!"rust", b!"java", b!"c_cpp", b!"css",
+      b!"html", b!"shell", b!"yaml", b!"config"] ∧
+    Gen.languageExtensions.all (fun row => (Gen.languageRules.lookup row.2).isSome) = true := by decide
+
+/-- `heurReal_ok`: whatever the language / file-context heuristics return, for whatever file, line, column and hash order,
+    is a member of the list they are given -/
+theorem heurReal_ok (A : Acr) (ord : List Style) (path content line : Bytes) (pos : Nat) :
+    ∀ l s, Resolver.heurReal A ord path content line pos l = some s → s ∈ l :=
+  Resolver.heurReal_ok language_rules_guarded A ord path content line pos
+
+theorem envCtx_ok (c : Cfg) (ord : List Style) (path content line : Bytes) (pos : Nat) :
+    (envCtx c ord path content line pos).HeurOk ∧ (envCtx c ord path content line pos).CoerceOk :=
+  ⟨Resolver.heurReal_ok language_rules_guarded c.A ord path content line pos, LinePipeline.envReal_coerceOk c⟩
+
+/-- what the source says about the cross-file level (translate/resolvershape.py): every `AmbiguityContext` the scanner and
+    the path renamer build has `project_root: None`, `try_cross_file_context` starts with `context.project_root.as_ref()?`,
+    and the levels are asked in the order language, file, cross, fallback -/
+theorem cross_file_level_unreachable :
+    Gen.projectRootAlwaysNone = true ∧ Gen.crossFileNeedsProjectRoot = true ∧
+    Gen.resolverLevelOrder = [b!"language", b!"file", b!"cross", b!"fallback"] := by decide
+
+/-- the two places that build an `AmbiguityContext` and the model's two contexts have the same shape: the scanner fills
+    path, content, line and column, the path renamer nothing (read from the source) -/
+theorem context_sites :
+    Gen.ambiguityContextSites =
+      [(b!"rename.rs", Resolver.pathCtx.shape), (b!"scanner.rs", (Resolver.hunkCtx [] [] [] 0).shape)] := by decide
+
+/-- for a path component every level is silent: there the resolver IS its fallback chain (`heur := fun _ => none`, what the
+    `resolve` correspondence runs), whatever the cross-file analyzer does -/
+theorem path_component_context_silent (A : Acr) (ord : List Style)
+    (cross : Bytes → Bytes → Bytes → List Style → Option Style) (matched repl : Bytes) (rp : List Style) :
+    (Resolver.resolveWhy A ord cross Resolver.pathCtx matched repl rp).2 = resolve A (fun _ => none) matched repl rp := by
+  rw [Resolver.resolveWhy_style, Resolver.heurCtx_pathCtx]
+
+/-- the assumption of the one-line correspondence (`rewriteline`: a file `a.txt` of one line) as a theorem: no language
+    module for the extension and fewer than 50 counted identifiers ⇒ the environment with the real heuristics is the
+    environment `envReal` the composed theorems of clause 1 are about -/
+theorem envCtx_eq_envReal {c : Cfg} (ord : List Style) {path content : Bytes} (line : Bytes) (pos : Nat)
+    (hheur : c.env.heur = fun _ => none)
+    (hext : (Resolver.extension path).bind Resolver.rulesOfExt = none)
+    (hfew : (Resolver.styleTags c.A content).length < Resolver.minIdentifiers) :
+    envCtx c ord path content line pos = envReal c := by
+  simp only [envCtx, Resolver.heurReal_silent ord line pos hext hfew, envReal, hheur]
+
+/-- non-vacuity: `a.txt` holding the line `see FOOBAR, fooBar and foo_bar here` -/
+example : (Resolver.extension b!"a.txt").bind Resolver.rulesOfExt = none ∧
+    (Resolver.styleTags A b!"see FOOBAR, fooBar and foo_bar here\n").length < Resolver.minIdentifiers ∧
+    (cfg0 {} b!"foo_bar" b!"baz_qux").env.heur = (fun _ => none) := by
+  refine ⟨by decide +kernel, by decide +kernel, rfl⟩
+
+/-- … hence, on the contexts `generate_hunks` builds, `resolve_with_styles` is `LinePipeline.resolve` with
+    `heur := heurReal …` WHATEVER the cross-file analyzer does (no contract asked of it) -/
+theorem resolver_on_scanner_context (A : Acr) (ord : List Style)
+    (cross : Bytes → Bytes → Bytes → List Style → Option Style) (path content line : Bytes) (pos : Nat)
+    (matched repl : Bytes) (rp : List Style) :
+    (Resolver.resolveWhy A ord cross (Resolver.hunkCtx path content line pos) matched repl rp).2 =
+      resolve A (Resolver.heurReal A ord path content line pos) matched repl rp := by
+  rw [Resolver.resolveWhy_style, Resolver.heurReal_eq_heurCtx]
+
+/-- the style chosen for an ambiguous match under the real heuristics is compatible with the match -/
+theorem ambiguous_choice_compatible_real {A : Acr} (ord : List Style) (path content line : Bytes) (pos : Nat)
+    {matched : Bytes} (repl : Bytes) (rp : List Style) (hamb : isAmbiguous A matched Gen.allStyles = true) :
+    resolve A (Resolver.heurReal A ord path content line pos) matched repl rp ∈ filterCompatible A matched Gen.allStyles :=
+  ambiguous_choice_compatible repl rp hamb (Resolver.heurReal_ok language_rules_guarded A ord path content line pos)
+
+/-- CLAUSE 3 with the real heuristics: the text the ambiguity branch of `generate_hunks` produces starts with an upper-case
+    letter iff the match does — in every file, on every line, at every column, for every hash order -/
+theorem ambiguous_keeps_case_real {c : Cfg} {ord : List Style} {path content line : Bytes} {pos : Nat} {vm : SMap}
+    {repl r cs t : Bytes} {a d : UInt8} {ts : List Bytes}
+    (hb : baseReplacement c.A (envCtx c ord path content line pos) vm (a :: cs) repl = some (.ambiguity, r))
+    (ha : isAlpha a = true) (hp : parse c.A repl = (d :: t) :: ts) (hd : isAlpha d = true) :
+    ∃ e r', r = e :: r' ∧ isUpper e = isUpper a :=
+  ambiguous_keeps_case (envCtx_ok c ord path content line pos).1 hb ha hp hd
+
+/-- … and an all-upper-case match (two leading capitals, not an acronym run) stays without lower-case letters -/
+theorem ambiguous_keeps_all_upper_real {c : Cfg} {ord : List Style} {path content line : Bytes} {pos : Nat} {vm : SMap}
+    {repl r cs : Bytes} {a a' : UInt8}
+    (hb : baseReplacement c.A (envCtx c ord path content line pos) vm (a :: a' :: cs) repl = some (.ambiguity, r))
+    (ha : isUpper a = true) (ha' : isUpper a' = true) (hcu : hasConsecutiveUpper c.A (a :: a' :: cs) = true) :
+    hasLower r = false :=
+  ambiguous_keeps_all_upper (envCtx_ok c ord path content line pos).1 hb ha ha' hcu
+
+/-- non-vacuity, and the heuristics DO act: in `lib.rs` after `fn ` the occurrence `foo` of a term renamed to `bazQux` is
+    written `baz_qux` (language level: Rust functions are snake_case) where the fallback chain alone writes `bazQux`;
+    after `struct ` the language level has no possible style to offer and the fallback answers; `FOO` after `const ` becomes
+    `BAZ_QUX`; in a Ruby file `class Foo` becomes `class BazQux` -/
+example :
+    baseReplacement A (envCtx (cfg0 {} b!"foo" b!"bazQux") [] b!"src/lib.rs" b!"fn foo() {}\n" b!"fn foo() {}\n" 3) []
+      b!"foo" b!"bazQux" = some (.ambiguity, b!"baz_qux") ∧
+    baseReplacement A env0 [] b!"foo" b!"bazQux" = some (.ambiguity, b!"bazQux") ∧
+    baseReplacement A (envCtx (cfg0 {} b!"foo" b!"bazQux") [] b!"src/lib.rs" b!"struct foo;\n" b!"struct foo;\n" 7) []
+      b!"foo" b!"bazQux" = some (.ambiguity, b!"bazQux") ∧
+    baseReplacement A (envCtx (cfg0 {} b!"foo" b!"bazQux") [] b!"src/lib.rs" b!"const FOO: u8 = 1;\n" b!"const FOO: u8 = 1;\n" 6) []
+      b!"FOO" b!"bazQux" = some (.ambiguity, b!"BAZ_QUX") ∧
+    baseReplacement A (envCtx (cfg0 {} b!"foo" b!"baz_qux") [] b!"app/models/foo.rb" b!"class Foo\n" b!"class Foo\n" 6) []
+      b!"Foo" b!"baz_qux" = some (.ambiguity, b!"BazQux") := by decide +kernel
+
+/-- the language level on its own: extension lookup (`Path::extension`: last dot of the file name, dot files and names
+    without a dot have none, case sensitive), `trim`, the branch order of a module (`trait ` anywhere wins over a trailing
+    `fn`), the vacuous "all caps" test of the Python module on an empty context -/
+example :
+    Resolver.extension b!"a/b.d/mod.rs" = some b!"rs" ∧ Resolver.extension b!".bashrc" = none ∧
+    Resolver.extension b!"dir.rs/Makefile" = none ∧ Resolver.extension b!"x.tar.gz" = some b!"gz" ∧
+    Resolver.rulesOfExt b!"tsx" = some Gen.javascriptRules ∧ Resolver.rulesOfExt b!"RS" = none ∧
+    Resolver.rulesOfExt b!"env" = some Gen.configRules ∧
+    Resolver.langSuggest b!"m.rs" b!"  pub trait T { fn " [.snake, .pascal] = some .pascal ∧
+    Resolver.langSuggest b!"m.rs" b!"\tpub fn " [.snake, .pascal] = some .snake ∧
+    Resolver.langSuggest b!"m.rs" b!"pub fn " [.camel, .pascal] = none ∧
+    Resolver.langSuggest b!"m.py" b!"" [.snake, .screamingSnake] = some .screamingSnake ∧
+    Resolver.langSuggest b!"m.js" b!"const MAX_" [.camel, .screamingSnake] = some .screamingSnake ∧
+    Resolver.langSuggest b!"m.css" b!".btn." [.snake] = none ∧
+    Resolver.langSuggest b!"m.txt" b!"fn " [.snake] = none := by decide +kernel
+
+/-- the identifier extractor of the file-context level: strings in the three kinds of quotes and `//` comments are skipped,
+    numbers and one-letter names dropped, ambiguous single words not counted -/
+example :
+    Resolver.extractIdentifiers b!"let user_name = getUser(x, 42); // not_me\n\"nor_me\" MAX_SIZE 'a_b' `c_d` e-f" =
+      [b!"let", b!"user_name", b!"getUser", b!"MAX_SIZE", b!"e-f"] ∧
+    Resolver.styleTags A b!"let user_name = getUser(x, 42); // not_me\n\"nor_me\" MAX_SIZE 'a_b' `c_d` e-f" =
+      [.snake, .camel, .screamingSnake, .kebab] := by decide +kernel
+
+/-- FINDING (outside the text of C06: both answers keep the case), kernel-evaluated on the counts: with as many snake_case as
+    camelCase identifiers in the file (`n` = the threshold each, so that both gates are passed), `FileContextAnalyzer::
+    suggest_style` answers Camel or Snake for the ambiguous `foo` depending on the iteration order of its `HashMap<Style, usize>`
+    (`RandomState`: different from map to map) — the same plan request renders `foo` as `bazQux` in one run and `baz_qux` in the
+    next (corpus/C06/file_context_tie_hash_order.json).  `fileChoices` is the set of both. -/
+theorem file_context_tie_depends_on_hash_order :
+    let n := Resolver.minIdentifiers
+    let tags := List.replicate n Style.snake ++ List.replicate n Style.camel
+    let possible := [Style.snake, .kebab, .camel, .dot, .lowerFlat, .lowerSentence]
+    Resolver.fileSuggestTags [.snake, .camel] tags possible = some .camel ∧
+    Resolver.fileSuggestTags [.camel, .snake] tags possible = some .snake ∧
+    Resolver.fileChoicesTags tags possible = [.snake, .camel] ∧
+    -- one identifier more of either style and the order is irrelevant
+    Resolver.fileChoicesTags (Style.snake :: tags) possible = [.snake] ∧
+    -- a dominant style the match cannot be written in is passed over for the best possible one
+    Resolver.fileChoicesTags (List.replicate (4 * n) Style.pascal ++ List.replicate 7 Style.kebab ++ List.replicate 9 Style.camel)
+      possible = [.camel] := by decide +kernel
+
+/-- the two gates of the file-context level, for whatever constants the source has: fewer counted identifiers than the
+    threshold, or no style that reaches the medium-confidence ratio ⇒ the level is silent for every hash order -/
+theorem file_context_gates (ord tags possible : List Style)
+    (h : tags.length < Resolver.minIdentifiers ∨
+      ∀ s, Resolver.mediumDen * tags.count s < Resolver.mediumNum * tags.length) :
+    Resolver.fileSuggestTags ord tags possible = none := by
+  cases hs : Resolver.fileSuggestTags ord tags possible with
+  | none => rfl
+  | some s =>
+    exfalso
+    have hm := Resolver.fileSuggestTags_mem_choices hs
+    unfold Resolver.fileChoicesTags at hm
+    simp only [] at hm
+    split at hm
+    · cases hm
+    · rename_i hg
+      rcases h with h | h
+      · simp [h] at hg
+      · have : Gen.allStyles.all
+            (fun s => decide (Resolver.mediumDen * tags.count s < Resolver.mediumNum * tags.length)) = true := by
+          rw [List.all_eq_true]; intro t _; simpa using h t
+        simp [this] at hg
+
+/-- every answer of the file-context level, for every hash order, is among `fileChoices`; and whether the level answers at
+    all does not depend on the order -/
+theorem file_context_answers (A : Acr) (ord : List Style) (content : Bytes) (possible : List Style) :
+    (∀ s, Resolver.fileSuggest A ord content possible = some s → s ∈ Resolver.fileChoices A content possible) ∧
+    (Resolver.fileSuggest A ord content possible = none → Resolver.fileChoices A content possible = []) :=
+  ⟨fun _ h => Resolver.fileSuggest_mem_choices h, Resolver.fileSuggest_none⟩
+
 
 end C06
